@@ -52,6 +52,10 @@ def scenarios(tier):
     for be in (("mem", "fs+cache-one") if tier != "thorough" else ("mem", "fs", "fs+cache-all", "fs+cache-one")):
         out.append(("%s|cold|batch-vs-call" % be, be, "cold", [[("g", [1, 2])], [("g", 2)]]))
     out.append(("fs+cache-one|store|batch-vs-call", "fs+cache-one", "store", [[("g", [1, 2])], [("g", 2)]]))
+    # results that are None, and callers that ignore the result: "nothing to return" must not read as "not memoized"
+    for be in (("mem", "fs+cache-one") if tier != "thorough" else ("mem", "fs", "fs+cache-all", "fs+cache-one")):
+        out.append(("%s|cold|none-result" % be, be, "cold", [[("gnone", 1)], [("gnone", 1)]]))
+        out.append(("%s|cold|ignore-result" % be, be, "cold", [[("g!ignore", 1)], [("g!ignore", 1)]]))
     # three callers of a call whose first attempt ends un-memoized (the waiting threads take over one after the other)
     out.append(("mem|cold|flaky-3threads", "mem", "cold", [[("flaky", 1)], [("flaky", 1)], [("flaky", 1)]]))
     if tier == "thorough":
@@ -142,6 +146,8 @@ def _invoke(fx, fn, arg):
     """arg is one argument, or a list of arguments = one call_batch over them"""
     if isinstance(arg, list):
         return getattr(fx, fn).call_batch([{"x": a} for a in arg])
+    if fn.endswith("!ignore"):  # the caller is not interested in the value
+        return getattr(fx, fn.split("!")[0]).ignore_result()(arg)
     return getattr(fx, fn)(arg)
 
 
